@@ -2,6 +2,7 @@
 namespace SdnsVerif.Gen.C10
 
 def beginwire_pins_capacity : Bool := true
+def cancelwithrcode_allocates_reply : Bool := true
 def carrier_reset_in_serveraw : Nat := 1
 def carrier_reset_in_serverawinline : Nat := 1
 def carrier_reset_in_serverawreplay : Nat := 1
@@ -44,5 +45,6 @@ def udp_fields : List String := ["engine", "pc", "slabShard", "rx", "rxLen", "tx
 def udp_portable_reader_sets : List String := ["pc", "pktinfo", "pktinfoLen", "raddr", "rawSALen", "readTime", "remote", "replay", "rxLen", "state", "txLen", "written"]
 def udp_release_resets : List String := ["pktinfoLen", "replay", "rxLen", "state", "txLen", "written"]
 def udp_unowned : List String := ["carrier", "chain", "ednsWriter", "engine", "ipScratch", "rawSA", "req", "rx", "tx"]
+def views_answers_not_copied : List Nat := []
 
 end SdnsVerif.Gen.C10
